@@ -204,3 +204,160 @@ def rigid_signature(name="n", windings=(-1, 0, 1), generic=True, swaps=True):
                 ("box", "u", (), (base,)), ("box", "e", (base,), ()), ("box", "s", (), ()),
                 ("box", "gd", (base, base), (base,), True)]
     return atoms, sig
+
+
+# ------------------------------------------------------------------ kits for the other classes
+
+def generic_data(name, n, seed=0):
+    """Deterministic small Gaussian integers (as Python complex) for a tensor box."""
+    from mc.core import digest
+    s = int(digest("%s/%d" % (name, seed)), 16) % 97
+    return [complex((7 * k + 13 * s) % 11 - 5, (5 * k + s) % 7 - 3) for k in range(n)]
+
+
+class ExprKit(Kit):
+    """Classes whose boxes are written as expressions evaluated in the class namespace:
+    spec ('e', "<python expression>") e.g. ('e', 'Rz(0.3)'), ('e', 'Z(1, 2, 0.25)').
+    tensor also has ('tbox', name, dom_dims, cod_dims[, dagger])."""
+
+    def __init__(self, cls):  # noqa
+        self.cls = cls
+        self._io = {}
+        if cls == "tensor":
+            from discopy import tensor as m
+            self.ns = {k: getattr(m, k) for k in ("Dim", "Box", "Swap", "Spider", "Id", "Cup", "Cap")}
+            self.Ty, self.Id, self.Diagram, self.Swap, self.Box = m.Dim, m.Id, m.Diagram, m.Swap, m.Box
+        elif cls == "circuit":
+            from discopy.quantum import circuit as m
+            from discopy.quantum import gates as g
+            self.ns = dict(vars(g))
+            self.ns.update({k: getattr(m, k) for k in (
+                "Measure", "Encode", "Discard", "MixedState", "Swap", "bit", "qubit", "Id")})
+            self.Ty, self.Id, self.Diagram, self.Swap, self.Box = m.Ty, m.Id, m.Circuit, m.Swap, m.Box
+        elif cls == "zx":
+            from discopy.quantum import zx as m
+            self.ns = {k: getattr(m, k) for k in ("Z", "X", "Y", "H", "SWAP", "scalar", "Id")}
+            self.Ty, self.Id, self.Diagram, self.Swap, self.Box = m.PRO, m.Id, m.Diagram, m.Swap, m.Box
+        elif cls == "biclosed":
+            from discopy import biclosed as m
+            self.ns = {k: getattr(m, k) for k in (
+                "Ty", "Over", "Under", "Box", "FA", "BA", "FC", "BC", "FX", "BX", "Curry", "Id")}
+            self.ns.update(x=m.Ty("x"), y=m.Ty("y"), z=m.Ty("z"))
+            self.Ty, self.Id, self.Diagram, self.Box = m.Ty, m.Id, m.Diagram, m.Box
+        elif cls == "cartesian":
+            from discopy import cartesian as m
+            self.ns = {k: getattr(m, k) for k in ("Box", "Id", "SWAP", "COPY", "DISCARD", "ADD")}
+            self.ns["sym"] = symbolic_function
+            self.Ty, self.Id, self.Diagram, self.Box = m.PRO, m.Id, m.Diagram, m.Box
+        else:
+            raise ValueError(cls)
+        self.m = m
+
+    def ty(self, atoms):
+        if self.cls == "tensor":
+            return self.Ty(*atoms)
+        if self.cls == "circuit":
+            t = self.ns["qubit"] ** 0
+            for a in atoms:
+                t = t @ self.ns[a]
+            return t
+        if self.cls in ("zx", "cartesian"):
+            return self.Ty(len(atoms))
+        if self.cls == "biclosed":
+            t = self.Ty()
+            for a in atoms:
+                t = t @ eval(a, dict(self.ns))
+            return t
+        raise ValueError(self.cls)
+
+    def ident(self, atoms):
+        if self.cls == "cartesian":
+            return self.Id(len(atoms))
+        if self.cls == "zx":
+            return self.Id(len(atoms))
+        return self.Id(self.ty(atoms))
+
+    def box(self, spec):
+        if spec[0] == "e":
+            return eval(spec[1], dict(self.ns))
+        if spec[0] == "tbox":
+            dom, cod = self.Ty(*spec[2]), self.Ty(*spec[3])
+            n = 1
+            for d in tuple(spec[2]) + tuple(spec[3]):
+                n *= d
+            if len(spec) > 4 and spec[4]:
+                return self.Box(spec[1], cod, dom, generic_data(spec[1], n)).dagger()
+            return self.Box(spec[1], dom, cod, generic_data(spec[1], n))
+        raise ValueError(spec)
+
+    def io(self, spec):
+        key = repr(spec)
+        if key not in self._io:
+            from mc import ref
+            b = self.box(spec)
+            self._io[key] = (self.atoms_of(b.dom), self.atoms_of(b.cod))
+        return self._io[key]
+
+    def atoms_of(self, t):
+        if self.cls == "biclosed":
+            return tuple(biclosed_str(t[i:i + 1]) for i in range(len(t)))
+        return tuple(o.name for o in t.objects)
+
+    def build(self, dom, layers):
+        d = self.ident(dom)
+        for spec, off in layers:
+            b = self.box(spec)
+            left, right = d.cod[:off], d.cod[off + len(b.dom):]
+            d = d >> self.Diagram.id(left) @ b @ self.Diagram.id(right)
+        return d
+
+
+def biclosed_str(t):
+    """Expression (over x, y, z, <<, >>) that rebuilds a one-object biclosed type."""
+    from discopy import biclosed
+    if isinstance(t, biclosed.Over):
+        return "(%s << %s)" % (biclosed_str(t.left), biclosed_str(t.right))
+    if isinstance(t, biclosed.Under):
+        return "(%s >> %s)" % (biclosed_str(t.left), biclosed_str(t.right))
+    if len(t) == 1:
+        o = t[0]
+        if isinstance(o, (biclosed.Over, biclosed.Under)):
+            return biclosed_str(o)
+        return str(o.name)
+    return "(" + " @ ".join(biclosed_str(t[i:i + 1]) for i in range(len(t))) + ")" if len(t) else "Ty()"
+
+
+def symbolic_function(name, n_out):
+    """Injective symbolic function: returns the n_out strings '<name><k>(<args>)'."""
+    def f(*args):
+        outs = tuple("%s%d(%s)" % (name, k, ",".join(map(str, args))) for k in range(n_out))
+        return outs[0] if n_out == 1 else outs
+    f.__name__ = name
+    return f
+
+
+def kit(cls):  # noqa: F811
+    if cls not in _KITS:
+        _KITS[cls] = Kit(cls) if cls in ("monoidal", "rigid") else ExprKit(cls)
+    return _KITS[cls]
+
+
+def expr_universe(cls, sig, doms, max_depth, max_width):
+    """universe() for ExprKit classes: dom/cod of each spec is read from the real generator."""
+    k = kit(cls)
+    level = [(tuple(dom), (), tuple(dom)) for dom in doms]
+    for depth in range(max_depth + 1):
+        for dom, layers, cod in level:
+            yield (cls, dom, layers)
+        if depth == max_depth:
+            break
+        nxt = []
+        for dom, layers, cod in level:
+            for spec in sig:
+                bd, bc = k.io(spec)
+                if len(cod) - len(bd) + len(bc) > max_width:
+                    continue
+                for off in range(len(cod) - len(bd) + 1):
+                    if tuple(cod[off:off + len(bd)]) == tuple(bd):
+                        nxt.append((dom, layers + ((spec, off),), cod[:off] + tuple(bc) + cod[off + len(bd):]))
+        level = nxt
